@@ -100,9 +100,13 @@ let project (pre2 : state2) (l : label) (post2 : state2) : string =
     | LCall (t, _) -> let t = int_of_nat t in [Printf.sprintf "c%d@%s" t (cpoint (getc_i t post).c_pc)]
     | LStep (ACaller t, _) ->
       let t = int_of_nat t in
-      Printf.sprintf "c%d@%s" t (cpoint (getc_i t post).c_pc) :: show_written pre post
+      (* the block that registers and writes ends when the bytes are out ("wire"): the harness wraps the
+         transport; the model's CWritten / RAckWritten = written, WriteMsg or sendPacket not yet returned *)
+      let pt = match (getc_i t pre).c_pc, (getc_i t post).c_pc with CReg _, CWritten _ -> "wire" | _, p -> cpoint p in
+      Printf.sprintf "c%d@%s" t pt :: show_written pre post
     | LStep (ARx, _) ->
-      let base = ("rx@" ^ rpoint post.rx) :: show_written pre post in
+      let pt = match pre.rx, post.rx with RAckReg _, RAckWritten _ -> "wire" | _, p -> rpoint p in
+      let base = ("rx@" ^ pt) :: show_written pre post in
       (match pre.rx with
        | RDeliver (_, (t, _), _, _) ->
          let t = int_of_nat t in
@@ -153,6 +157,17 @@ let replay () =
          (match step_l s lab with
           | None -> Printf.printf "M\t%s\t%s\tblocked\n" idx n
           | Some _ -> Printf.printf "M\t%s\t%s\tREJECT:model-lets-it-pass\n" idx n; st := None))
+    | "A" :: idx :: n :: lbl :: _ when String.length lbl > 8 && String.sub lbl 0 8 = "stutter " ->
+      (* WriteMsg returns and the sender reaches its "written" yield: no model step, the actor must be in
+         the state "written, not yet returned" *)
+      (match !st with
+       | None -> Printf.printf "M\t%s\t%s\tREJECTED-EARLIER\n" idx n
+       | Some s ->
+         let a = String.sub lbl 8 (String.length lbl - 8) in
+         let ok = if a = "rx" then (match s.base.rx with RAckWritten _ -> true | _ -> false)
+           else (match (getc_i (int_of_string (String.sub a 1 (String.length a - 1))) s.base).c_pc with CWritten _ -> true | _ -> false) in
+         if ok then Printf.printf "M\t%s\t%s\t%s@written\n" idx n a
+         else (Printf.printf "M\t%s\t%s\tREJECT:not-after-a-write\n" idx n; st := None))
     | "A" :: idx :: n :: lbl :: _ ->
       (match !st with
        | None -> Printf.printf "M\t%s\t%s\tREJECTED-EARLIER\n" idx n
@@ -174,32 +189,47 @@ let replay () =
 
 (* ---- exhaustive enumeration of a two-caller scope -------------------------------------- *)
 
-let enum k0 k1 gz limit =
+let enum_pass k0 k1 gz stride =
   let kinds = [| k0; k1 |] in
   let hinted k = (k = "vecbare" || k = "vecobj") in
   let count = ref 0 in
   let total = ref 0 in
   let emit (path : string list) =
     incr total;
-    if !count < limit then begin
+    if stride > 0 && (!total - 1) mod stride = 0 then begin
       incr count;
       Printf.printf "S %d 2 enum-%s-%s-gz%s\n" !count k0 k1 gz;
       List.iter print_endline (List.rev path);
       print_endline "E"
     end in
   (* ids of the calls once written, which of them the server has answered *)
-  let rec go (s2 : state2) (path : string list) (called : bool array) (answered : bool array) (clk : int) (nsid : int) =
+  (* wire.(a): actor a (0, 1 = callers, 2 = receive loop) has its bytes out but WriteMsg has not returned: its next
+     step in the real client is the stutter to "written" (no model step); everybody else may move in between *)
+  let rec go (s2 : state2) (path : string list) (called : bool array) (answered : bool array) (wire : bool array) (clk : int) (nsid : int) =
     let moves = ref [] in
     let s = s2.base in
-    let add lab line upd = match step_l s2 lab with Some s' -> moves := (s', line, upd) :: !moves | None -> () in
+    let add0 lab line upd wa = match step_l s2 lab with
+      | Some s' ->
+        let w = Array.copy wire in
+        (match wa with
+         | Some a ->
+           let wrote = List.length (wire_out s'.base.elog) = List.length (wire_out s.elog) + 1 in
+           if wrote then w.(a) <- true
+         | None -> ());
+        moves := (s', line, upd, w) :: !moves
+      | None -> () in
+    let add lab line upd = add0 lab line upd None in
+    let stutter a line = let w = Array.copy wire in w.(a) <- false; moves := (s2, line, (fun _ _ -> ()), w) :: !moves in
     for t = 0 to 1 do
       if not called.(t) then
         add (LCall (nat_of_int t, hinted kinds.(t)))
           (Printf.sprintf "call %d %s %s %d" t kinds.(t) (if hinted kinds.(t) then "1" else "0") (100 + t))
           (fun c a -> c.(t) <- true);
-      add (LStep (ACaller (nat_of_int t), z_of_int clk)) (Printf.sprintf "step c%d" t) (fun _ _ -> ())
+      if wire.(t) then stutter t (Printf.sprintf "step c%d" t)
+      else add0 (LStep (ACaller (nat_of_int t), z_of_int clk)) (Printf.sprintf "step c%d" t) (fun _ _ -> ()) (Some t)
     done;
-    add (LStep (ARx, z_of_int clk)) "step rx" (fun _ _ -> ());
+    if wire.(2) then stutter 2 "step rx"
+    else add0 (LStep (ARx, z_of_int clk)) "step rx" (fun _ _ -> ()) (Some 2);
     (* server answers: requests that are on the wire and unanswered *)
     let written t =
       List.fold_left (fun acc w -> match w.w_kind with
@@ -225,13 +255,21 @@ let enum k0 k1 gz limit =
     match !moves with
     | [] -> emit path
     | ms ->
-      List.iter (fun (s', line, upd) ->
+      List.iter (fun (s', line, upd, w) ->
           let c = Array.copy called and a = Array.copy answered in
           upd c a;
-          go s' (line :: path) c a (clk + 1) (nsid + 12)) (List.rev ms)
+          go s' (line :: path) c a w (clk + 1) (nsid + 12)) (List.rev ms)
   in
-  go start2 [] [| false; false |] [| false; false |] 1 0;
-  Printf.eprintf "enum %s %s gz=%s: %d maximal histories, %d printed\n" k0 k1 gz !total !count
+  go start2 [] [| false; false |] [| false; false |] [| false; false; false |] 1 0;
+  (!total, !count)
+
+(* all maximal histories if there are at most [limit], otherwise every k-th of them in enumeration order *)
+let enum k0 k1 gz limit =
+  let (total, _) = enum_pass k0 k1 gz 0 in
+  let stride = if limit <= 0 || total <= limit then 1 else (total + limit - 1) / limit in
+  let (_, printed) = if limit = 0 then (total, 0) else enum_pass k0 k1 gz stride in
+  Printf.eprintf "enum %s %s gz=%s: %d maximal histories, %d printed%s\n" k0 k1 gz total printed
+    (if stride > 1 then Printf.sprintf " (every %d-th)" stride else "")
 
 let () =
   match Array.to_list Sys.argv with
